@@ -104,7 +104,10 @@ void clmNames(Ctx& ctx)
 	std::string dir = ctx.freshDir("c20names");
 	ref::WavSpec w; w.data = { 1, 2, 3, 4 }; w.fmtSize = 18;
 	auto bytes = ref::encodeWav(w);
-	for (const std::string& base : { std::string("abcdefgh"), std::string("ABCDEFG8"), std::string("abcdefghi"), std::string("a23456789"), std::string("abcdefghijklmnop") }) for (const std::string& ext : { std::string(".wav"), std::string(".WAV") }) {
+	// base names of 1, 7, 8 (fit) and 9, 10, 12, 13, 16 (do not fit) characters x extensions of every length incl. none:
+	// the 8-character limit applies to the name without its extension, whatever the extension looks like
+	for (const std::string& base : { std::string("a"), std::string("abcdefg"), std::string("abcdefgh"), std::string("ABCDEFG8"), std::string("abcdefghi"), std::string("a23456789"), std::string("abcdefghij"), std::string("twelvechars_"), std::string("thirteenchars"), std::string("abcdefghijklmnop") })
+	for (const std::string& ext : { std::string(".wav"), std::string(".WAV"), std::string(""), std::string(".w"), std::string(".wv"), std::string(".wave"), std::string(".") }) {
 		std::string p = dir + "/" + base + ext;
 		mc::writeFile(p, bytes);
 		std::string out = dir + "/n.clm"; ::unlink(out.c_str());
@@ -206,6 +209,26 @@ void frames(Ctx& ctx, int listFrom, int listTo)
 	ctx.state(); ctx.trace();
 }
 
+// layer lists whose length equals the count modulo 128, 256, 65536: still a mismatch
+void framesModulo(Ctx& ctx)
+{
+	std::vector<int> z(prtc::kDims, 0);
+	ArtFile base = prtc::readArt(ref::encodePrt(prtc::makePrt(z)));
+	for (int count : { 0, 1, 2, 5, 126, 127 }) for (int add : { 128, 256, 384, 512, 1024, 65536, 65536 + 128 }) for (int flag = 0; flag < 2; ++flag) {
+		int len = count + add;
+		ArtFile a = base;
+		auto& f = a.animations[0].frames[0];
+		f.layers.assign(std::size_t(len), Animation::Frame::Layer{ 7, 1, 2, { 3, 4 } });
+		f.layerMetadata.count = uint8_t(count); f.layerMetadata.bReadOptionalData = uint8_t(flag);
+		auto o = mc::guarded([&] { prtc::writeArt(a); });
+		ctx.transition();
+		std::string key = "frame with " + std::to_string(len) + " layers and 7-bit count " + std::to_string(count) + " (equal modulo " + std::to_string(add) + ")";
+		ctx.count("frames/mismatch-modulo-field-width");
+		if (o.cls == 'R') ctx.violation("C20/frames/accepted-layer-list-disagreeing-with-count", key, "");
+	}
+	ctx.state(); ctx.trace();
+}
+
 struct CaseDef { int kind; int a, b; };
 std::vector<CaseDef> gCases;
 
@@ -217,6 +240,7 @@ void build(Ctx& ctx)
 	for (int k = 0; k < 4; ++k) gCases.push_back({ 1, k, 0 });
 	gCases.push_back({ 2, 0, 0 }); gCases.push_back({ 3, 0, 0 }); gCases.push_back({ 4, 0, 0 });
 	for (int f = 0; f <= 130; f += 10) gCases.push_back({ 5, f, std::min(f + 10, 131) });
+	gCases.push_back({ 6, 0, 0 });
 }
 
 void runCase(std::size_t i, Ctx& ctx)
@@ -249,6 +273,7 @@ void runCase(std::size_t i, Ctx& ctx)
 	case 2: clmNames(ctx); break;
 	case 3: prefixLimit<uint8_t>(ctx, "u8"); prefixLimit<int8_t>(ctx, "i8"); prefixLimit<uint16_t>(ctx, "u16"); prefixLimit<int16_t>(ctx, "i16"); ctx.state(); ctx.trace(); break;
 	case 4: mapContainerSize(ctx); break;
+	case 6: framesModulo(ctx); break;
 	default: frames(ctx, c.a, c.b); if (c.a == 120) ctx.sample("ArtFile::Write with a frame of 127 layers and count 127 (accepted) / 128 layers and count 0 (refused): every layer-list length 0..130 x every count 0..127"); break;
 	}
 }
